@@ -249,32 +249,31 @@ def naming(chk, op):
     chk.rule("C07-N", "option writer, reader (local and adjacent) and CLI agree on <image file name>.index", 3)
     repo = op.repo
     found = {}
-    # local: cache_name inside local_cache_location
+    # local: the last component of the location returned by local_cache_location, evaluated (constant folding of the
+    # function's own statements in the shape interpreter) on representative image paths: CEOS names contain dots, the
+    # path may have directories
     loc = op.fi(LOCAL_LOC)
-    flow = Flow(loc)
-    ret = [n for n in loc.own_nodes() if isinstance(n, ast.Return)][0].value
-    parts = []
-    e = ret
-    while isinstance(e, ast.BinOp) and isinstance(e.op, ast.Div):
-        parts.append(e.right)
-        e = e.left
-    last = flow.expand(parts[0]) if parts else None
-    var, suf = _fstring_suffix(last) if last is not None else (None, None)
-    if suf is None:
-        txt = norm(last) if last is not None else ""
-        if "with_suffix(" in txt or ".stem" in txt or "splitext" in txt:
-            chk.fail("C07-N", op.where(loc), f"local cache name is {txt[:90]}: it replaces / cuts the part after the last dot of the image file name, and CEOS names contain dots "
-                                             f"(...1.1__D-B3): all scans of a product share one cache file, the last one written is served for every scan", key="naming:local:extension-replaced")
-            return
-        raise AnalysisError(f"{op.where(loc)}: local cache name {txt[:80]} is not of the form <file name> + literal suffix; not decided")
-    found["local"] = (var, suf, loc)
-    # the leading variable must be the file name part of path
-    fname_ok = False
-    for n in loc.own_nodes():
-        if isinstance(n, ast.Assign) and isinstance(n.targets[0], ast.Tuple):
-            if "rsplit('/', 1)" in norm(n.value).replace('"', "'"):
-                names = [x.id for x in n.targets[0].elts if isinstance(x, ast.Name)]
-                fname_ok = var in names[-1:]
+    reps = ["IMG-HH-ALOS2012345678-140102-WBDR1.1__D-B3", "IMG-HH-ALOS2012345678-140102-WBDR1.1__D-B1", "IMG-HV-ALOS2012345678-140102-UBSR2.1GUD",
+            "sub/dir/IMG-HH-ALOS2012345678-140102-WBDR1.1__D-B1", "a.b/IMG-VV-X", "IMG-NODOT"]
+    names = {p: _local_name(repo, loc, p) for p in reps}
+    sufs_seen = set()
+    bad = None
+    for p, n in names.items():
+        base = p.rsplit("/", 1)[-1]
+        if not n.startswith(base) or "/" in n:
+            bad = (p, n)
+            break
+        sufs_seen.add(n[len(base):])
+    if bad is not None:
+        p, n = bad
+        chk.fail("C07-N", op.where(loc), f"local cache name for image {p!r} is {n!r}: not <image file name> + suffix. It replaces / cuts part of the file name (CEOS names contain dots: "
+                                         f"...1.1__D-B3), so all scans of a product share one cache file and the last one written is served for every scan", key="naming:local:fname")
+        return
+    if len(sufs_seen) != 1:
+        chk.fail("C07-N", op.where(loc), f"local cache name suffix depends on the image name: {sorted(sufs_seen)}", key="naming:local:fname")
+        return
+    chk.ok("C07-N", op.where(loc), f"local cache name is <image file name>{next(iter(sufs_seen))!r} on {len(reps)} representative paths (dotted names, sub-directories)")
+    found["local"] = (None, next(iter(sufs_seen)), loc)
     rem = op.fi(REMOTE_LOC)
     rret = [n for n in rem.own_nodes() if isinstance(n, ast.Return)][0].value
     found["adjacent"] = _fstring_suffix(Flow(rem).expand(rret)) + (rem,)
@@ -293,8 +292,6 @@ def naming(chk, op):
                     f"{k} cache name is <file name>{suf!r}",
                     f"{k} cache name suffix is {suf!r}, the library's local cache uses {sufs['local']!r}: caches written there are never found",
                     key=f"naming:{k}", sample={"site": k, "suffix": suf})
-    chk.require(fname_ok, "C07-N", op.where(loc), "local cache name is built from the file-name part of the image path",
-                "local cache name is not built from the file-name part of the path", key="naming:local:fname")
     # CLI: path = image_path.name and the same name is handed to open_image
     ok_cli = found["cli"][0] is not None and "name" in norm(cflow.expand(ast.Name(id=found["cli"][0], ctx=ast.Load()))) if found["cli"][0] else False
     # writer/reader use the same key: create_cache writes where read_cache looks first
@@ -313,6 +310,34 @@ def naming(chk, op):
     chk.require(bool(a) and a == b[: len(a)] or (bool(a) and set(a) <= set(b)), "C07-N", op.where(cc),
                 f"create_cache and read_cache locate the local cache with the same expression {a}",
                 f"create_cache locates the cache with {a}, read_cache with {b}", key="naming:writer-reader-args")
+
+
+def _local_name(repo, loc, path):
+    from ..shapes import Const, Interp, ShapeError, _Raise
+    I = Interp(repo)
+    sc = I.module_scope(loc.module).child(owner=loc)
+    ps = loc.positional_params
+    if len(ps) != 2:
+        raise AnalysisError(f"{loc.key}: expected (remote_root, path) parameters")
+    sc.vars[ps[0]] = Const("memory://root")
+    sc.vars[ps[1]] = Const(path)
+    body = [st for st in loc.node.body if not (isinstance(st, ast.Expr) and isinstance(st.value, ast.Constant))]
+    if not body or not isinstance(body[-1], ast.Return):
+        raise AnalysisError(f"{loc.key}: not a straight-line function ending in a return; cache name not decided")
+    try:
+        I.exec_block(body[:-1], sc, [])
+        e = body[-1].value
+        if isinstance(e, ast.BinOp) and isinstance(e.op, ast.Div):
+            v = I.eval(e.right, sc)
+        else:
+            raise AnalysisError(f"{loc.key}: returns {short(e, 60)}, not <cache root> / ... / <name>; cache name not decided")
+    except (ShapeError, _Raise) as ex:
+        raise AnalysisError(f"{loc.key}: cannot evaluate the cache name for {path!r}: {ex}")
+    if isinstance(v, Const) and isinstance(v.v, str):
+        return v.v
+    if isinstance(v, Const) and hasattr(v.v, "as_posix"):
+        return v.v.as_posix()
+    raise AnalysisError(f"{loc.key}: the cache name for {path!r} does not fold to a constant ({v!r}); not decided"[:300])
 
 
 # ----------------------------------------------------------------------------
